@@ -225,6 +225,11 @@ def walkA : Nat → Nat → List Nat → Option (List Line)
 unrepaired `x_neg - 128` underflows and panics in the debug profile) -/
 def isHexNeg (x : Nat) : Bool := isHex ((x + 128) % 256)
 
+/-- text printed for a literal negative backslash in front of an escape look-alike: `\\xdc` with the repair
+`proposed_fixes/c14-integer-backslash-escape.diff` (the unrepaired `\\x5c` re-tokenizes to `5C`, escapes
+are not inverted).  Read from the source by the translator. -/
+def iBackslashEsc : List Nat := [92, 120] ++ iBackslashEscHex
+
 /-- `integer::bytes_to_escaped_string_ex` on the suffix `bytes[offset..]`, with the repair
 `proposed_fixes/c14-integer-escapes.diff`: besides positive ASCII and the configured escapes, negative
 NUL, negative lower case and — inside strings — the negative quote are written as `\\xNN`. -/
@@ -236,7 +241,7 @@ def escI (term : List Nat) : List Nat → List Nat × List Nat
       let piece : List Nat :=
         if b = 220 ∧ 3 ≤ rest.length then
           match rest with
-          | x :: h1 :: h2 :: _ => if x = 248 ∧ isHexNeg h1 ∧ isHexNeg h2 then [92, 120, 53, 99] else [92]
+          | x :: h1 :: h2 :: _ => if x = 248 ∧ isHexNeg h1 ∧ isHexNeg h2 then iBackslashEsc else [92]
           | _ => [92]
         else if iEscapes.contains b ∨ b > 254 ∨ b ≤ 128 ∨ (225 ≤ b ∧ b ≤ 250) ∨ (b = 162 ∧ term.contains iCloseQuote)
           then hexEsc b
@@ -320,6 +325,16 @@ def assembleI : List Line → Outcome (List Nat)
     else (assembleI ls).map fun tl =>
       [2 + l.body.length + 2, l.num % 256, l.num / 256] ++ l.body ++ [1] ++ tl
 
+/-- Integer BASIC number token as the tokenizer builds it (integer/tokenizer.rs:35-44): header byte
+`B0 +` the first decimal digit of the **value** (`i16::to_string(&num).as_bytes()[0] + 128`, i.e. not of
+the typed text, which may carry leading zeros or blanks), then the value little endian -/
+def firstDigit (v : Nat) : Nat :=
+  match dec v with
+  | d :: _ => d - 48
+  | [] => 0
+
+def numTokI (v : Nat) : List Nat := [176 + firstDigit v, v % 256, v / 256]
+
 /-- Token-level scan of one Integer BASIC line (what the ROM's and a2kit's LIST do: strings run to
 the closing quote, REM to the end of line, `B0..B9` introduce a two byte constant, names are runs
 of negative ASCII).  Returns the number of bytes up to and including the EOL token, and the rest. -/
@@ -344,7 +359,9 @@ def scanLineI : Nat → List Nat → Option (Nat × List Nat)
       else if b < 128 then (scanLineI fuel rest).map fun x => (x.1 + 1, x.2)
       else if 176 ≤ b ∧ b ≤ 185 then
         match rest with
-        | _ :: _ :: rest' => (scanLineI fuel rest').map fun x => (x.1 + 3, x.2)
+        | lo :: hi :: rest' =>
+          -- the header digit must be the first digit of the value (what the ROM's LIST relies on)
+          if b = 176 + firstDigit (lo + 256 * hi) then (scanLineI fuel rest').map fun x => (x.1 + 3, x.2) else none
         | _ => none
       else
         let r := rest.dropWhile (fun c => c ≥ 128)
